@@ -1,6 +1,7 @@
 (* C20 - Counter arithmetic is exact and stays within the modulo range.
    Only statements, each closed by an exact reference to Proofs/. *)
 From Verif Require Import Values Counter CounterProofs.
+From Coq Require Import Permutation.
 Open Scope Q_scope.
 
 (* For every configuration without a zero modulo and EVERY event list: the output equals
@@ -35,6 +36,41 @@ Proof. exact counter_modulo_zero_refused. Qed.
 Theorem C20_agree_implies_monitor : forall k, case_agree k = true -> case_monitor k = true.
 Proof. exact counter_agree_implies_monitor. Qed.
 
+(* 'reset' yields exactly the start-up value (the reduced initdef) and returns it. *)
+Theorem C20_reset_is_start : forall c out, cstep c out Reset = (Ok (cstart c None), cstart c None).
+Proof. exact counter_reset_is_start. Qed.
+
+(* inc then dec (or dec then inc) by the same amount restores every reduced output. *)
+Theorem C20_inc_dec_cancel : forall c out a,
+  mod_ok (cmod c) -> out == setmod (cmod c) out ->
+  cfinal c out [Inc a; Dec a] == out /\ cfinal c out [Dec a; Inc a] == out.
+Proof. exact counter_inc_dec_cancel. Qed.
+
+(* ... and every output the counter produces is such a reduced value. *)
+Theorem C20_output_reduced : forall c mm v,
+  cmod c = Some mm -> ~ mm == 0 -> setmod (cmod c) v == setmod (cmod c) (setmod (cmod c) v).
+Proof. exact counter_output_reduced. Qed.
+
+(* A batch of inc/dec events of ANY length adds the plain sum of its signed amounts,
+   reduced once; hence the order inside such a batch is irrelevant. *)
+Theorem C20_incdec_sum : forall c evs out acc,
+  mod_ok (cmod c) -> out == setmod (cmod c) acc -> forallb incdec evs = true ->
+  cfinal c out evs == setmod (cmod c) (acc + fold_right (fun e s => delta e + s) 0 evs).
+Proof. exact counter_incdec_sum. Qed.
+
+Theorem C20_incdec_order_irrelevant : forall c evs evs' out acc,
+  mod_ok (cmod c) -> out == setmod (cmod c) acc -> forallb incdec evs = true ->
+  Permutation evs evs' -> cfinal c out evs == cfinal c out evs'.
+Proof. exact counter_incdec_order_irrelevant. Qed.
+
+(* non-vacuity of the two above: modulo 7, out = 5 is reduced, a 3-event batch permuted *)
+Example C20_batch_nonvacuous :
+  let c := {| cmod := Some 7; cinit := 0 |} in
+  Qeq_bool 5 (setmod (cmod c) 5) = true /\
+  Qeq_bool (cfinal c 5 [Inc (Some 4); Dec None; Inc (Some (9 # 2))])
+           (cfinal c 5 [Dec None; Inc (Some (9 # 2)); Inc (Some 4)]) = true.
+Proof. vm_compute. split; reflexivity. Qed.
+
 (* non-vacuity: a concrete case with modulo 7, negative amounts and a faulty put *)
 Example C20_nonvacuous :
   let k := {| k_mod := Some 7; k_init := 30 # 1; k_restored := None; k_created := true;
@@ -51,3 +87,8 @@ Print Assumptions C20_event_returns_output.
 Print Assumptions C20_faulty_event_no_change.
 Print Assumptions C20_modulo_zero_refused.
 Print Assumptions C20_agree_implies_monitor.
+Print Assumptions C20_reset_is_start.
+Print Assumptions C20_inc_dec_cancel.
+Print Assumptions C20_output_reduced.
+Print Assumptions C20_incdec_sum.
+Print Assumptions C20_incdec_order_irrelevant.
